@@ -7,6 +7,7 @@ void exec_elementwise(int shape, int form, unsigned G, Setup& S) {
     case SUM_LL: stmt_g(form, G, S, a + b); break; case SUM_LR: stmt_g(form, G, S, a + std::move(b)); break;
     case SUM_RL: stmt_g(form, G, S, std::move(a) + b); break; case SUM_RR: stmt_g(form, G, S, std::move(a) + std::move(b)); break;
     case DIFF_LL: stmt_g(form, G, S, a - b); break; case DIFF_RL: stmt_g(form, G, S, std::move(a) - b); break;
+    case DIFF_LR: stmt_g(form, G, S, a - std::move(b)); break; case DIFF_RR: stmt_g(form, G, S, std::move(a) - std::move(b)); break;
     case NEG_L: stmt_g(form, G, S, -a); break; case NEG_R: stmt_g(form, G, S, -std::move(a)); break;
     case MUL_L: stmt_g(form, G, S, a * S.sc); break; case MUL_R: stmt_g(form, G, S, std::move(a) * S.sc); break;
     case LMUL_L: stmt_g(form, G, S, S.sc * a); break; case LMUL_R: stmt_g(form, G, S, S.sc * std::move(a)); break;
